@@ -3,6 +3,7 @@ package main
 // Random configuration / world / event generation for the `hist` stream.
 
 import (
+	"strings"
 	"fmt"
 	"time"
 
@@ -21,6 +22,9 @@ func (h *Hist) genConfigs() {
 	h.globalDry = r.chance(4)
 	if focus == "dry" {
 		h.globalDry = r.chance(25)
+	}
+	if focus == "rotate" {
+		h.globalDry = false
 	}
 	useDefault := ng > 1 && r.chance(40)
 	for i := 0; i < ng; i++ {
@@ -56,6 +60,14 @@ func (h *Hist) genConfigs() {
 		if r.chance(20) {
 			o.MaxNodeAge = r.pick("1h", "30m", "0", "-1h")
 		}
+		if focus == "rotate" {
+			// max_node_age rotation: the group sits at its minimum with old nodes, whatever the load
+			o.MaxNodeAge = r.pick("1h", "30m", "2h")
+			o.MinNodes, o.MaxNodes = r.rng(1, 4), 0
+			o.MaxNodes = o.MinNodes + r.rng(3, 12)
+			minN, maxN = o.MinNodes, o.MaxNodes
+			o.DryMode = false
+		}
 		if r.chance(15) {
 			o.AWS.ResourceTagging = true
 		}
@@ -87,7 +99,10 @@ func (h *Hist) genConfigs() {
 			effMin, effMax = int(asgMin), int(asgMax)
 		}
 		nNodes := r.rng(effMin, effMax)
-		switch r.intn(12) {
+		if focus == "rotate" && r.chance(85) {
+			nNodes = effMin
+		}
+		switch r.intn(12) + map[bool]int{true: 100, false: 0}[focus == "rotate"] {
 		case 0:
 			nNodes = 0
 		case 1:
@@ -103,6 +118,9 @@ func (h *Hist) genConfigs() {
 			ago := int64(r.pickI(0, 10, 100, 100, 1000, 5000, 86400))
 			if focus == "ties" {
 				ago = int64(r.pickI(100, 100, 100, 200, 200, 300))
+			}
+			if focus == "rotate" {
+				ago = int64(r.pickI(100, 5000, 9000, 86400, 86400))
 			}
 			n := h.addNode(i, cpu, mem, ago, true)
 			if focus == "ties" && r.chance(8) {
@@ -163,7 +181,7 @@ func (h *Hist) setLoad(gi int, pct int, jitter int) {
 	o := h.cfgs[gi]
 	var keep []*WPod
 	for _, p := range h.pods {
-		if p.NodeSelector["grp"] != o.LabelValue && !(o.Name == "default" && len(p.NodeSelector) == 0) {
+		if p.NodeSelector["grp"] != o.LabelValue && !(o.Name == "default" && len(p.NodeSelector) == 0) && !strings.HasPrefix(p.Name, "odd") {
 			keep = append(keep, p)
 		}
 	}
@@ -263,6 +281,24 @@ func (h *Hist) setLoad(gi int, pct int, jitter int) {
 		}
 		h.pods = append(h.pods, p)
 	}
+	// a pod of nobody's: partial affinity structures (no required node selector) — belongs to no labelled group, nor to default
+	if h.r.chance(12) {
+		h.podSeq++
+		q := &WPod{Name: fmt.Sprintf("odd%d", h.podSeq), NS: "ns", Phase: h.r.pick("Running", "Pending"), Annotations: map[string]string{},
+			Containers: [][2]int64{{int64(h.r.pickI(100, 2000)), int64(h.r.pickI(1, 8)) << 28}}, NodeSelector: map[string]string{}}
+		switch h.r.intn(4) {
+		case 0:
+			q.Affinity = &v1.Affinity{NodeAffinity: &v1.NodeAffinity{PreferredDuringSchedulingIgnoredDuringExecution: []v1.PreferredSchedulingTerm{{Weight: 1,
+				Preference: v1.NodeSelectorTerm{MatchExpressions: []v1.NodeSelectorRequirement{{Key: "grp", Operator: v1.NodeSelectorOpIn, Values: []string{o.LabelValue}}}}}}}}
+		case 1:
+			q.Affinity = &v1.Affinity{NodeAffinity: &v1.NodeAffinity{}}
+		case 2:
+			q.Affinity = &v1.Affinity{NodeAffinity: &v1.NodeAffinity{RequiredDuringSchedulingIgnoredDuringExecution: &v1.NodeSelector{}}}
+		default:
+			q.Affinity = &v1.Affinity{PodAntiAffinity: &v1.PodAntiAffinity{}}
+		}
+		h.pods = append(h.pods, q)
+	}
 	// a daemonset pod on some node: never counts
 	if h.r.chance(30) && len(h.cfgIndexNodes(gi)) > 0 {
 		all := h.cfgIndexNodes(gi)
@@ -340,6 +376,16 @@ func (h *Hist) randomEvent() string {
 	}
 	if focus == "faults" && r.chance(30) {
 		ev = r.pickI(15, 15, 4, 19, 13) // odd nodes, odd taint values, vanished objects, deliveries
+	}
+	if focus == "rotate" && r.chance(70) {
+		ev = r.pickI(0, 1, 2, 3, 21, 10, 13) // mostly load changes across all bands, time, deliveries: keep the group at its minimum
+	}
+	if r.chance(3) && len(nodes) > 0 {
+		// every node of the group is cordoned (maintenance): nothing of theirs may be counted
+		for _, n := range nodes {
+			n.Unschedulable = true
+		}
+		return "cordon-all"
 	}
 	if focus == "cooldown" && r.chance(45) {
 		ev = r.pickI(10, 11, 12, 21, 4, 5, 6) // advances around the cool-down, load changes, taints and cordons inside the window
